@@ -15,7 +15,7 @@ warnings.simplefilter("ignore")
 from pams.order import LIMIT_ORDER, MARKET_ORDER, Order  # noqa: E402
 
 ID = "C04"
-RULE = ("(machine) histories as for C01 plus re-submission of accepted order objects, orders naming another market, "
+RULE = ("(machine part also: clock jumps of 2-12 steps through Market._set_time, cancels that name an equal deep copy of the order, pending orders rewritten before acceptance) (machine) histories as for C01 plus re-submission of accepted order objects, orders naming another market, "
         "cancels of resting / partially filled / filled / expired / already cancelled orders and every ttl; per order: "
         "accepted volume = sum of fills + volume at its first terminal record or still resting; resting volume > 0; no "
         "fill on a cancelled or expired order; depth dicts and ExpirationLogs equal the lifetime model after every op "
